@@ -397,8 +397,10 @@ def check_bech32_decode(ctx, oid="C06.4"):
             low = bitvec.value_bits(tm.binop("band", DATA, (1 << pad) - 1), width_of)
             okm = False
             for g in sym_guards:
-                if isinstance(g, T) and g.op == "cmp" and g.args[0] == "ne" and g.args[2] == 0:
-                    gb = bitvec.value_bits(g.args[1], width_of)
+                tested = g.args[1] if isinstance(g, T) and g.op == "cmp" and g.args[0] == "ne" and g.args[2] == 0 else \
+                    g.args[0] if isinstance(g, T) and g.op == "truth" and tm.tyof(g.args[0]) == tm.INT else None
+                if tested is not None:
+                    gb = bitvec.value_bits(tested, width_of)
                     if gb is not None and low is not None and gb[0] == low[0]:
                         okm = True
             if not okm:
